@@ -15,7 +15,9 @@ func getFieldDisplayName(field *ast.Field) string {
 
 func FindSelection(matchString string, selectionSet ast.SelectionSet) *ast.Field {
 	for _, s := range common.SelectionSetToFields(selectionSet, nil) {
-		if getFieldDisplayName(s) == matchString {
+		// the planner's own node(id: $id) wrapper carries no result type and is never
+		// what an insertion point refers to, even if the client selected a field called node
+		if getFieldDisplayName(s) == matchString && !isPlannerNodeWrapper(s) {
 			return s
 		}
 
@@ -27,4 +29,8 @@ func FindSelection(matchString string, selectionSet ast.SelectionSet) *ast.Field
 	}
 
 	return nil
+}
+
+func isPlannerNodeWrapper(f *ast.Field) bool {
+	return f.Name == common.NodeFieldName && f.Alias == "" && (f.Definition == nil || f.Definition.Type == nil)
 }
